@@ -2,7 +2,7 @@
    Proved here: the hand-over and broadcast clauses. The clean re-initialisation / cache clauses are exercised by the
    correspondence run and the C05 monitors (DESIGN.md C05). *)
 From Coq Require Import ZArith List.
-From DbftV Require Import Gates.
+From DbftV Require Import Gates P11.
 Open Scope Z_scope.
 
 (* the block-acceptance callback is invoked only while no block has been accepted since the last (re)initialisation at
@@ -25,3 +25,23 @@ Proof.
            end).
 Qed.
 Print Assumptions after_the_decision_only_recovery_messages_are_broadcast.
+
+(* quiescence (every state with the height decided, every script): timeouts and transactions change nothing and make no
+   callback but watch-only queries; a consensus payload of that height other than a recovery request only notes its sender *)
+Theorem timeout_after_the_decision_changes_nothing cfg h v s0 :
+  blockProcessed s0 = true -> hx s0 (OnTimeout cfg h v) (fun _ s tr => s = s0 /\ Forall (fun sc => exists b, snd sc = CWatchOnly b) tr).
+Proof. exact (timeout_after_the_decision cfg h v false s0). Qed.
+Print Assumptions timeout_after_the_decision_changes_nothing.
+
+Theorem transaction_after_the_decision_changes_nothing cfg t s0 :
+  blockProcessed s0 = true -> hx s0 (OnTransaction cfg t) (fun _ s tr => s = s0 /\ Forall (fun sc => exists b, snd sc = CWatchOnly b) tr).
+Proof. exact (transaction_after_the_decision cfg t s0). Qed.
+Print Assumptions transaction_after_the_decision_changes_nothing.
+
+Theorem payload_after_the_decision_only_notes_the_sender cfg ic msg s0 :
+  blockProcessed s0 = true -> p_type msg <> RecoveryRequestT -> p_idx msg < N s0 -> p_height msg = BlockIndex s0 ->
+  ((p_view msg >? ViewNumber s0) && negb (mtype_eqb (p_type msg) ChangeViewT) && negb (mtype_eqb (p_type msg) RecoveryMessageT)) = false ->
+  hx s0 (OnReceive cfg ic msg)
+     (fun _ s tr => (exists l, s = s0 <| LastSeenMessage := l |>) /\ Forall (fun sc => exists b, snd sc = CWatchOnly b) tr).
+Proof. exact (payload_after_the_decision cfg ic msg s0). Qed.
+Print Assumptions payload_after_the_decision_only_notes_the_sender.
